@@ -168,3 +168,24 @@ func init() {
 		}
 	}
 }
+
+func init() {
+	// vcheck --dev hostile: the error each hostile input of C12 is rejected with
+	devExtra["hostile"] = func(args []string) {
+		for _, h := range hostileInputs() {
+			var msg string
+			pan, pmsg, _ := fw.Guard(func() {
+				_, err := asm.ParseString("h", h)
+				if err != nil {
+					msg = firstLine(err.Error())
+				} else {
+					msg = "ACCEPTED"
+				}
+			})
+			if pan {
+				msg = "PANIC " + firstLine(pmsg)
+			}
+			fmt.Printf("%-70s => %s\n", fw.Trunc(strings.ReplaceAll(h, "\n", "\\n"), 70), msg)
+		}
+	}
+}
